@@ -39,6 +39,7 @@ End StmtInd.
 
 (* ------------------------------------------------------------------ the anonymous inner loops of run_stmt, named *)
 Definition res3 := (vstate * list ev * bool)%type.
+Definition tr (r : res3) : list ev := snd (fst r).
 
 Lemma blk_eq : forall m tab ins l d v,
   (fix go (d : list name) (l : list stmt) (v : vstate) : res3 :=
@@ -227,20 +228,6 @@ Qed.
 Lemma base_setup : base false 0. Proof. left; reflexivity. Qed.
 Lemma base_main : base true 1. Proof. right; split; reflexivity. Qed.
 
-(* no pass of loop() is ever cut short, and setup() runs to its last statement *)
-Lemma break_guard_sound : forall its, transl_ok its = true ->
-  (forall m, snd (run_ann m (p_tab (transl its)) true (p_setup (transl its)) v0) = false) /\
-  (forall m inp v h, snd (run_pass m inp (transl its) v h) = false).
-Proof.
-  intros its Hok. destruct (transl_ok_split its [] Hok) as [Hs Hl]. split.
-  - intros m. apply (run_ann_nobreak false 0); [exact Hs|exact base_setup].
-  - intros m inp v h. unfold run_pass.
-    destruct (poll_all inp (transl its) (p_polls (transl its)) h) as [h1 tp].
-    pose proof (run_ann_nobreak true 1 (p_loop (transl its)) m (p_tab (transl its)) false v Hl base_main) as Hn.
-    destruct (run_ann m (p_tab (transl its)) false (p_loop (transl its)) v) as [[v1 tb] brk].
-    exact Hn.
-Qed.
-
 (* a [break] that only [if]s separate from the main loop *)
 Inductive brk_at (l : list stmt) : Prop :=
 | brk_here : In SBreak l -> brk_at l
@@ -412,10 +399,240 @@ Proof.
   - destruct pins; reflexivity.
 Qed.
 
-Lemma nobs_hoists : forall p, nobs (hoists p).
+(* ------------------------------------------------------------------ the dedup-filtered configuration *)
+Lemma cu_pm_dedup : forall pins nm mode tag step seen,
+  forallb is_cfg_or_use (fst (pm_dedup nm mode tag step pins seen)) = true.
 Proof.
-  intro p. unfold hoists. apply nobs_app; apply nobs_flat_map; intro d; apply cu_nobs;
-    [apply cu_hoist_setup|apply cu_hoist_loop].
+  induction pins as [|p r IH]; intros nm mode tag step seen; [reflexivity|]. cbn [pm_dedup].
+  destruct (kmem (nm, p, tag) seen); [apply IH|].
+  specialize (IH nm mode (tag + step) step ((nm, p, tag) :: seen)).
+  destruct (pm_dedup nm mode (tag + step) step r ((nm, p, tag) :: seen)) as [t s']. cbn [fst] in *. cbn. exact IH.
+Qed.
+
+Lemma pm_dedup_incl : forall pins nm mode tag step seen e,
+  In e (fst (pm_dedup nm mode tag step pins seen)) -> In e (pm mode pins).
+Proof.
+  induction pins as [|p r IH]; intros nm mode tag step seen e H; [destruct H|]. cbn [pm_dedup] in H.
+  destruct (kmem (nm, p, tag) seen).
+  - right. exact (IH _ _ _ _ _ _ H).
+  - specialize (IH nm mode (tag + step) step ((nm, p, tag) :: seen) e).
+    destruct (pm_dedup nm mode (tag + step) step r ((nm, p, tag) :: seen)) as [t s']. cbn [fst] in *.
+    destruct H as [H|H]; [left; exact H|right; exact (IH H)].
+Qed.
+
+Lemma hoist_setupD_incl : forall d seen e, In e (fst (hoist_setupD d seen)) -> In e (hoist_setup d).
+Proof.
+  intros [k nm pins h] seen e H. unfold hoist_setupD in H. unfold hoist_setup. cbn [d_kind d_pins d_name] in *.
+  destruct k; try (destruct H; fail).
+  - destruct (kmem (nm, 0, 71) seen); [destruct H|exact H].
+  - pose proof (pm_dedup_incl pins nm 1 20 1 seen e) as HI.
+    destruct (pm_dedup nm 1 20 1 pins seen) as [t s']. cbn [fst] in *. apply in_app_or in H as [H|H]; apply in_or_app;
+      [left; exact (HI H)|right; exact H].
+  - destruct pins as [|p r]; [destruct H|]. destruct (kmem (nm, 0, 70) seen); [destruct H|].
+    pose proof (pm_dedup_incl [p] nm 2 30 0 seen e) as HI.
+    destruct (pm_dedup nm 2 30 0 [p] seen) as [t s']. cbn [fst] in *. apply in_app_or in H as [H|H].
+    + destruct (HI H) as [<-|[]]. left. reflexivity.
+    + destruct H as [<-|[]]. right. left. reflexivity.
+  - exact (pm_dedup_incl _ _ _ _ _ _ _ H).
+  - exact (pm_dedup_incl _ _ _ _ _ _ _ H).
+  - destruct (kmem (nm, 0, 72) seen); [destruct H|exact H].
+Qed.
+
+Lemma hoist_loopD_incl : forall d seen e, In e (fst (hoist_loopD d seen)) -> In e (hoist_loop d).
+Proof.
+  intros [k nm pins h] seen e H. unfold hoist_loopD in H. unfold hoist_loop. cbn [d_kind d_pins d_name] in *.
+  destruct k; try (destruct H; fail).
+  - exact H.
+  - exact (pm_dedup_incl _ _ _ _ _ _ _ H).
+  - destruct (kmem (nm, 0, 71) seen); [destruct H|exact H].
+  - pose proof (pm_dedup_incl pins nm 1 20 1 seen e) as HI.
+    destruct (pm_dedup nm 1 20 1 pins seen) as [t s']. cbn [fst] in *. apply in_app_or in H as [H|H]; apply in_or_app;
+      [left; exact (HI H)|right; exact H].
+  - destruct pins as [|p r]; [destruct H|]. destruct (pm_dedup_incl [p] nm 2 30 0 seen e H) as [<-|[]]. left. reflexivity.
+  - exact (pm_dedup_incl _ _ _ _ _ _ _ H).
+  - destruct pins as [|t0 [|e0 r]]; try (destruct H; fail).
+    pose proof (pm_dedup_incl [t0] nm 1 60 0 seen e) as HA.
+    destruct (pm_dedup nm 1 60 0 [t0] seen) as [a s1].
+    pose proof (pm_dedup_incl [e0] nm 0 61 0 s1 e) as HB.
+    destruct (pm_dedup nm 0 61 0 [e0] s1) as [b s2]. cbn [fst] in *. unfold ultra_cfg.
+    apply in_app_or in H as [H|H].
+    + destruct (HA H) as [<-|[]]. left. reflexivity.
+    + destruct (HB H) as [<-|[]]. right. left. reflexivity.
+Qed.
+
+(* a top-level declaration emits a subset of what a nested one (no dedup, nothing claimed by pass 1) would *)
+Lemma inplaceD_incl : forall ins d seen e, In e (fst (inplaceD ins d seen)) -> In e (inplace_cfg false ins d).
+Proof.
+  intros ins [k nm pins h] seen e H. unfold inplaceD in H. unfold inplace_cfg. cbn [d_kind d_pins d_name] in *.
+  destruct k; try (destruct H; fail); try exact H; destruct ins; try (destruct H; fail); cbn [andb negb].
+  - exact (pm_dedup_incl _ _ _ _ _ _ _ H).
+  - exact (pm_dedup_incl _ _ _ _ _ _ _ H).
+  - pose proof (pm_dedup_incl pins nm 1 20 1 seen e) as HI.
+    destruct (pm_dedup nm 1 20 1 pins seen) as [t s']. cbn [fst] in *. apply in_app_or in H as [H|H]; apply in_or_app;
+      [left; exact (HI H)|right; exact H].
+  - destruct pins as [|t0 [|e0 r]]; try (destruct H; fail).
+    pose proof (pm_dedup_incl [t0] nm 1 50 0 seen e) as HA.
+    destruct (pm_dedup nm 1 50 0 [t0] seen) as [a s1].
+    pose proof (pm_dedup_incl [e0] nm 0 51 0 s1 e) as HB.
+    destruct (pm_dedup nm 0 51 0 [e0] s1) as [b s2]. cbn [fst] in *. unfold ultra_cfg.
+    apply in_app_or in H as [H|H].
+    + destruct (HA H) as [<-|[]]. left. reflexivity.
+    + destruct (HB H) as [<-|[]]. right. left. reflexivity.
+  - exact (pm_dedup_incl _ _ _ _ _ _ _ H).
+Qed.
+
+Lemma cu_incl : forall t t', forallb is_cfg_or_use t' = true -> (forall e, In e t -> In e t') -> forallb is_cfg_or_use t = true.
+Proof. intros t t' H Hi. rewrite forallb_forall in *. intros e He. apply H, Hi, He. Qed.
+
+Lemma cu_hoist_fold : forall f g l seen, (forall d s e, In e (fst (f d s)) -> In e (g d)) ->
+  (forall d, forallb is_cfg_or_use (g d) = true) ->
+  forallb is_cfg_or_use (fst (hoist_fold f l seen)) = true.
+Proof.
+  intros f g l seen Hi Hg. revert seen. induction l as [|d r IH]; intro seen; [reflexivity|]. cbn [hoist_fold].
+  pose proof (cu_incl (fst (f d seen)) (g d) (Hg d) (Hi d seen)) as H1.
+  destruct (f d seen) as [t1 s1]. specialize (IH s1). destruct (hoist_fold f r s1) as [t2 s2]. cbn [fst] in *.
+  rewrite forallb_app, H1, IH. reflexivity.
+Qed.
+
+Lemma in_hoist_fold : forall f l seen e, In e (fst (hoist_fold f l seen)) -> exists d s, In d l /\ In e (fst (f d s)).
+Proof.
+  intros f l. induction l as [|d r IH]; intros seen e H; [destruct H|]. cbn [hoist_fold] in H.
+  destruct (f d seen) as [t1 s1] eqn:E1. specialize (IH s1 e). destruct (hoist_fold f r s1) as [t2 s2]. cbn [fst] in *.
+  apply in_app_or in H as [H|H].
+  - exists d, seen. split; [left; reflexivity|rewrite E1; exact H].
+  - destruct (IH H) as (d' & s' & Hd & He). exists d', s'. split; [right; exact Hd|exact He].
+Qed.
+
+Lemma in_hoists : forall p e, In e (hoists p) ->
+  (exists d, In d (p_top_setup p) /\ In e (hoist_setup d)) \/ (exists d, In d (p_top_loop p) /\ In e (hoist_loop d)).
+Proof.
+  intros p e H. unfold hoists, hoistsD in H.
+  pose proof (in_hoist_fold hoist_setupD (p_top_setup p) [] e) as H1.
+  destruct (hoist_fold hoist_setupD (p_top_setup p) []) as [t1 s1].
+  pose proof (in_hoist_fold hoist_loopD (p_top_loop p) s1 e) as H2.
+  destruct (hoist_fold hoist_loopD (p_top_loop p) s1) as [t2 s2]. cbn [fst] in *.
+  apply in_app_or in H as [H|H].
+  - left. destruct (H1 H) as (d & s & Hd & He). exists d. split; [exact Hd|exact (hoist_setupD_incl _ _ _ He)].
+  - right. destruct (H2 H) as (d & s & Hd & He). exists d. split; [exact Hd|exact (hoist_loopD_incl _ _ _ He)].
+Qed.
+
+Lemma cu_hoists : forall p, forallb is_cfg_or_use (hoists p) = true.
+Proof.
+  intro p. apply forallb_forall. intros e He. destruct (in_hoists p e He) as [(d & _ & H)|(d & _ & H)].
+  - pose proof (cu_hoist_setup d) as Hc. rewrite forallb_forall in Hc. exact (Hc e H).
+  - pose proof (cu_hoist_loop d) as Hc. rewrite forallb_forall in Hc. exact (Hc e H).
+Qed.
+
+Lemma nobs_hoists : forall p, nobs (hoists p).
+Proof. intro p. apply cu_nobs, cu_hoists. Qed.
+
+Lemma cu_inplace : forall top ins d, forallb is_cfg_or_use (inplace_cfg top ins d) = true.
+Proof.
+  intros top ins [k nm pins h]. unfold inplace_cfg. cbn [d_kind d_pins].
+  destruct k; try reflexivity; destruct ins; try reflexivity; try apply cu_pm; try apply cu_ultra_cfg.
+  - destruct top; [apply cu_wr|apply cu_app; [apply cu_pm|apply cu_wr]].
+  - destruct top; [reflexivity|apply cu_pm].
+Qed.
+
+Lemma cu_inplaceD : forall ins d seen, forallb is_cfg_or_use (fst (inplaceD ins d seen)) = true.
+Proof. intros ins d seen. exact (cu_incl _ _ (cu_inplace false ins d) (inplaceD_incl ins d seen)). Qed.
+
+(* ------------------------------------------------------------------ commands do not influence store, control or markers *)
+Definition strip (t : list ev) : list ev := filter (fun e => negb (is_cfg_or_use e)) t.
+
+Lemma strip_app : forall a b, strip (a ++ b) = strip a ++ strip b.
+Proof. intros. unfold strip. apply filter_app. Qed.
+
+Lemma strip_cu : forall t, forallb is_cfg_or_use t = true -> strip t = [].
+Proof.
+  induction t as [|e r IH]; intro H; [reflexivity|]. cbn [forallb] in H. apply andb_true_iff in H as [H1 H2].
+  unfold strip in *. cbn [filter]. rewrite H1. cbn [negb]. exact (IH H2).
+Qed.
+
+Lemma obs_strip : forall t, obs (strip t) = obs t.
+Proof.
+  induction t as [|e r IH]; [reflexivity|]. unfold obs, strip in *. cbn [filter].
+  destruct e; cbn [is_cfg_or_use negb is_obs filter]; rewrite ?IH; reflexivity.
+Qed.
+
+Definition eqv (r1 r2 : res3) : Prop :=
+  fst (fst r1) = fst (fst r2) /\ snd r1 = snd r2 /\ strip (tr r1) = strip (tr r2).
+
+Lemma eqv_refl : forall r, eqv r r.
+Proof. intro r. repeat split; reflexivity. Qed.
+
+Lemma strip_uses : forall tab dev, strip (uses tab dev) = [].
+Proof. intros. apply strip_cu, use_cu, use_uses. Qed.
+
+Lemma tab_indep_list : forall l,
+  Forall (fun s => forall m tab1 tab2 top ins d vs, eqv (run_stmt m tab1 top ins d s vs) (run_stmt m tab2 top ins d s vs)) l ->
+  forall m tab1 tab2 top ins d vs, eqv (run_list m tab1 top ins d l vs) (run_list m tab2 top ins d l vs).
+Proof.
+  intros l HF. induction HF as [|s r Hs _ IH]; intros m tab1 tab2 top ins d vs; [apply eqv_refl|].
+  cbn [run_list]. destruct (Hs m tab1 tab2 top ins d vs) as (E1 & E2 & E3).
+  destruct (run_stmt m tab1 top ins d s vs) as [[v1 t1] b1]. destruct (run_stmt m tab2 top ins d s vs) as [[v1' t1'] b1'].
+  unfold tr in *. cbn [fst snd] in *. subst v1' b1'. destruct b1; [repeat split; assumption|].
+  destruct (IH m tab1 tab2 top ins (d ++ assigned_stmt s) v1) as (F1 & F2 & F3).
+  destruct (run_list m tab1 top ins (d ++ assigned_stmt s) r v1) as [[v2 t2] b2].
+  destruct (run_list m tab2 top ins (d ++ assigned_stmt s) r v1) as [[v2' t2'] b2'].
+  unfold eqv, tr in *. cbn [fst snd] in *. subst v2' b2'. repeat split. rewrite !strip_app, E3, F3. reflexivity.
+Qed.
+
+Lemma tab_indep_stmt : forall s m tab1 tab2 top ins d vs,
+  eqv (run_stmt m tab1 top ins d s vs) (run_stmt m tab2 top ins d s vs).
+Proof.
+  intro s. induction s as [id dev|dd|x e|dv x|l| |x b IHb|c b IHb] using stmt_ind';
+    intros m tab1 tab2 top ins d vs.
+  - cbn [run_stmt]. unfold eqv, tr. cbn [fst snd]. repeat split. rewrite !strip_app, !strip_uses. reflexivity.
+  - apply eqv_refl.
+  - apply eqv_refl.
+  - cbn [run_stmt]. destruct (vread x vs). unfold eqv, tr. cbn [fst snd]. repeat split.
+    rewrite !strip_app, !strip_uses. reflexivity.
+  - cbn [run_stmt]. unfold eqv, tr. cbn [fst snd]. repeat split. rewrite !strip_uses. reflexivity.
+  - apply eqv_refl.
+  - rewrite !run_if. destruct (vread x _) as [c0 vs1]. destruct (c0 =? 0); [apply eqv_refl|].
+    apply (tab_indep_list b IHb).
+  - rewrite !run_for. generalize (pre_reset m top ins d b vs). induction c as [|k IHk]; intro v; [apply eqv_refl|].
+    cbn [for_iter]. destruct (tab_indep_list b IHb m tab1 tab2 false ins d v) as (E1 & E2 & E3).
+    destruct (run_list m tab1 false ins d b v) as [[v1 t1] b1]. destruct (run_list m tab2 false ins d b v) as [[v1' t1'] b1'].
+    unfold tr in *. cbn [fst snd] in *. subst v1' b1'. destruct b1; [repeat split; assumption|].
+    destruct (IHk v1) as (F1 & F2 & F3).
+    destruct (for_iter m tab1 ins d b k v1) as [[v2 t2] b2]. destruct (for_iter m tab2 ins d b k v1) as [[v2' t2'] b2'].
+    unfold eqv, tr in *. cbn [fst snd] in *. subst v2' b2'. repeat split. rewrite !strip_app, E3, F3. reflexivity.
+Qed.
+
+(* the statements of setup() / loop() as emitted (re-bindings, dedup) and the same list run with one fixed table *)
+Lemma run_annT_eqv : forall G m ins tab l st v, eqv (run_annT G m ins st l v) (run_ann m tab ins l v).
+Proof.
+  intros G m ins tab l. induction l as [|[d s] r IH]; intros st v; [apply eqv_refl|].
+  cbn [run_annT run_ann].
+  assert (E : eqv (top_ev m ins st d s v) (run_stmt m tab true ins d s v)).
+  { destruct s; try apply tab_indep_stmt. cbn [top_ev run_stmt]. unfold eqv, tr. cbn [fst snd]. repeat split.
+    rewrite (strip_cu _ (cu_inplaceD ins d0 (ts_seen st))), (strip_cu _ (cu_inplace true ins d0)). reflexivity. }
+  destruct E as (E1 & E2 & E3).
+  destruct (top_ev m ins st d s v) as [[v1 t1] b1]. destruct (run_stmt m tab true ins d s v) as [[v1' t1'] b1'].
+  unfold tr in *. cbn [fst snd] in *. subst v1' b1'. destruct b1; [repeat split; assumption|].
+  destruct (IH (adv G ins st s) v1) as (F1 & F2 & F3).
+  destruct (run_annT G m ins (adv G ins st s) r v1) as [[v2 t2] b2]. destruct (run_ann m tab ins r v1) as [[v2' t2'] b2'].
+  unfold eqv, tr in *. cbn [fst snd] in *. subst v2' b2'. repeat split. rewrite !strip_app, E3, F3. reflexivity.
+Qed.
+
+Lemma obs_eqv : forall a b, strip a = strip b -> obs a = obs b.
+Proof. intros a b H. rewrite <- (obs_strip a), <- (obs_strip b), H. reflexivity. Qed.
+
+(* no pass of loop() is ever cut short, and setup() runs to its last statement *)
+Lemma break_guard_sound : forall its, transl_ok its = true ->
+  (forall m, snd (run_annT (p_G (transl its)) m true (st0 (transl its)) (p_setup (transl its)) v0) = false) /\
+  (forall m inp v h, snd (run_pass m inp (transl its) v h) = false).
+Proof.
+  intros its Hok. destruct (transl_ok_split its [] Hok) as [Hs Hl]. set (p := transl its). split.
+  - intros m. destruct (run_annT_eqv (p_G p) m true (p_tab p) (p_setup p) (st0 p) v0) as (_ & E & _).
+    rewrite E. apply (run_ann_nobreak false 0); [exact Hs|exact base_setup].
+  - intros m inp v h. unfold run_pass.
+    destruct (poll_all inp p (p_polls p) h) as [h1 tp].
+    destruct (run_annT_eqv (p_G p) m false (p_tab p) (p_loop p) (stS p) v) as (_ & E & _).
+    pose proof (run_ann_nobreak true 1 (p_loop p) m (p_tab p) false v Hl base_main) as Hn.
+    destruct (run_annT (p_G p) m false (stS p) (p_loop p) v) as [[v1 tb] brk]. cbn [snd] in *. congruence.
 Qed.
 
 Definition is_hand_ev (e : ev) : bool := match e with EHand _ | EHUse _ _ => true | _ => false end.
@@ -488,12 +705,15 @@ Proof.
   cbn [run_passes ann_passes]. unfold run_pass.
   pose proof (hk_poll_all inp p (p_polls p) h) as Hp.
   destruct (poll_all inp p (p_polls p) h) as [h1 tp]. cbn [snd] in Hp.
-  rewrite (mode_indep_ann (p_loop p) (p_tab p) false v Hni).
+  destruct (run_annT_eqv (p_G p) MC false (p_tab p) (p_loop p) (stS p) v) as (E1 & E2 & E3).
+  rewrite (mode_indep_ann (p_loop p) (p_tab p) false v Hni) in E1, E2, E3.
+  destruct (run_annT (p_G p) MC false (stS p) (p_loop p) v) as [[v1' tb'] brk'].
   destruct (run_ann MPy (p_tab p) false (p_loop p) v) as [[v1 tb] brk].
+  unfold tr in E3. cbn [fst snd] in E1, E2, E3. subst v1' brk'.
   rewrite Hloc, drop_nil. specialize (IH v1 h1).
   destruct (run_passes MC inp p n v1 h1) as [v2 ts]. destruct (ann_passes (p_tab p) (p_loop p) n v1) as [v2' ts'].
   cbn [fst snd map] in *. destruct IH as [IH1 IH2]. split; [exact IH1|]. f_equal; [|exact IH2].
-  rewrite !obs_app, (obs_nobs tp (hk_nobs tp Hp)), (obs_nobs _ (hk_nobs _ (hk_ticks p))). reflexivity.
+  rewrite !obs_app, (obs_nobs tp (hk_nobs tp Hp)), (obs_nobs _ (hk_nobs _ (hk_ticks p))). exact (obs_eqv _ _ E3).
 Qed.
 
 Lemma ann_passes_loop : forall tab d body n v, ann_passes tab (ann d body) n v = py_loop tab d body n v.
@@ -574,12 +794,14 @@ Proof.
   assert (Hset : p_setup p = fst (split_d [] its)) by reflexivity.
   assert (Hloop : p_loop p = snd (split_d [] its)) by reflexivity.
   destruct (py_shape its tab [] n v0 Hml Hok) as (v1 & t1 & Hr & Hcase).
-  rewrite Htab, (mode_indep_ann (p_setup p) tab true v0 Hns), Hset, Hr in Hc.
-  destruct (passes_refine inp p Hloc Hnl n v1
-              (fold_left (fun h d => setup_sample inp d h) (p_top_setup p) h0)) as [Hv Ht].
+  destruct (run_annT_eqv (p_G p) MC true tab (p_setup p) (st0 p) v0) as (E1 & E2 & E3).
+  rewrite (mode_indep_ann (p_setup p) tab true v0 Hns), Hset, Hr in E1, E2, E3. rewrite <- Hset in E1, E2, E3.
+  destruct (run_annT (p_G p) MC true (st0 p) (p_setup p) v0) as [[vS tS] bS].
+  unfold tr in E3. cbn [fst snd] in E1, E2, E3. subst vS bS.
+  destruct (passes_refine inp p Hloc Hnl n v1 (setup_h inp p)) as [Hv Ht].
   destruct (run_passes MC inp p n v1 _) as [v' tl'] eqn:Erp. inversion Hc; subst ts tl cu. clear Hc.
   cbn [fst snd] in Hv, Ht. rewrite Htab, Hloop in Hv, Ht.
-  rewrite obs_app, (obs_nobs _ (nobs_hoists p)). cbn [app].
+  rewrite obs_app, (obs_nobs _ (nobs_hoists p)). cbn [app]. rewrite (obs_eqv _ _ E3).
   destruct Hcase as [(Hnm & Hb & Hpy)|(Hnm & d' & body & Hb & Hpy)].
   - rewrite Hpy in Hp. inversion Hp; subst ps pl pu. clear Hp. rewrite Hb in Hv, Ht.
     destruct (ann_passes_nil tab n v1) as [Hv1 Hc1]. rewrite Ht, Hc1, Hv, Hv1.
@@ -755,16 +977,6 @@ Proof.
   intros t H. rewrite forallb_forall in *. intros e He. specialize (H e He). destruct e; cbn in *; congruence.
 Qed.
 
-Lemma cu_inplace : forall top ins d, forallb is_cfg_or_use (inplace_cfg top ins d) = true.
-Proof.
-  intros top ins [k nm pins h]. unfold inplace_cfg. cbn [d_kind d_pins].
-  destruct k; try reflexivity; destruct ins; try reflexivity; try apply cu_pm; try apply cu_ultra_cfg.
-  - destruct top; [apply cu_wr|apply cu_app; [apply cu_pm|apply cu_wr]].
-  - destruct top; [reflexivity|apply cu_pm].
-Qed.
-
-Definition tr (r : res3) : list ev := snd (fst r).
-
 Lemma user_list : forall l,
   Forall (fun s => forall m tab top ins d vs, forallb is_user (tr (run_stmt m tab top ins d s vs)) = true) l ->
   forall m tab top ins d vs, forallb is_user (tr (run_list m tab top ins d l vs)) = true.
@@ -807,6 +1019,17 @@ Proof.
   unfold tr in *. cbn [fst snd] in *. rewrite forallb_app, Hs, IH. reflexivity.
 Qed.
 
+Lemma user_annT : forall G l m ins st v, forallb is_user (tr (run_annT G m ins st l v)) = true.
+Proof.
+  intros G l. induction l as [|[d s] r IH]; intros m ins st v; [reflexivity|].
+  cbn [run_annT].
+  assert (Hs : forallb is_user (tr (top_ev m ins st d s v)) = true).
+  { destruct s; try apply user_stmt. unfold tr. cbn [top_ev fst snd]. apply user_cu, cu_inplaceD. }
+  destruct (top_ev m ins st d s v) as [[v1 t1] [|]]; [exact Hs|].
+  specialize (IH m ins (adv G ins st s) v1). destruct (run_annT G m ins (adv G ins st s) r v1) as [[v2 t2] b2].
+  unfold tr in *. cbn [fst snd] in *. rewrite forallb_app, Hs, IH. reflexivity.
+Qed.
+
 Definition nohand_head (t : list ev) : bool :=
   match t with EHand _ :: _ => false | EHUse _ _ :: _ => false | _ => true end.
 
@@ -844,7 +1067,7 @@ Proof.
       split; [|reflexivity]. cbn [eat_polls]. rewrite Z.eqb_refl.
       set (hs := if lvl && negb (blookup b (h_prev h1))
                  then match d_handler d with
-                      | Some f => handler_events (p_tab p) (find_func f (p_funcs p))
+                      | Some f => handler_events (p_tabF p) (find_func f (p_funcs p))
                       | None => [] end else []).
       assert (Hhs : forallb is_hand_ev hs = true).
       { subst hs. destruct (lvl && negb (blookup b (h_prev h1))); [|reflexivity].
@@ -877,8 +1100,8 @@ Proof.
   intros m inp p v h. unfold run_pass.
   pose proof (eat_polls_poll_all inp p (p_polls p) h) as HP.
   destruct (poll_all inp p (p_polls p) h) as [h1 tp]. cbn [snd] in HP.
-  pose proof (user_ann (p_loop p) m (p_tab p) false v) as HU.
-  destruct (run_ann m (p_tab p) false (p_loop p) v) as [[v1 tb] brk]. unfold tr in HU. cbn [fst snd] in *.
+  pose proof (user_annT (p_G p) (p_loop p) m false (stS p) v) as HU.
+  destruct (run_annT (p_G p) m false (stS p) (p_loop p) v) as [[v1 tb] brk]. unfold tr in HU. cbn [fst snd] in *.
   rewrite tick_events_map. unfold hk_ok.
   destruct (HP (map ETick (tick_list p) ++ tb) (nohand_ticks _ _ (nohand_user _ HU))) as [H1 _].
   unfold poll_pins. fold (pin_of p). change (fun b => pin_of p b) with (pin_of p).
@@ -899,18 +1122,12 @@ Lemma housekeeping_once : forall inp n its,
   Forall (fun t => hk_ok (poll_pins (transl its)) (tick_list (transl its)) t = true)
          (snd (fst (exec_phases inp n its))).
 Proof.
-  intros inp n its. unfold exec_phases, run_setup.
-  pose proof (user_ann (p_setup (transl its)) MC (p_tab (transl its)) true v0) as HU.
-  destruct (run_ann MC (p_tab (transl its)) true (p_setup (transl its)) v0) as [[v t] brk].
-  pose proof (passes_hk_ok MC inp (transl its) n v
-                (fold_left (fun h d => setup_sample inp d h) (p_top_setup (transl its)) h0)) as HP.
-  destruct (run_passes MC inp (transl its) n v _) as [v' tl]. unfold tr in HU. cbn [fst snd] in *.
-  split; [|exact HP]. rewrite forallb_app, HU, andb_true_r.
-  unfold hoists. rewrite forallb_app. apply andb_true_iff. split.
-  - induction (p_top_setup (transl its)) as [|d r IH]; [reflexivity|]. cbn [flat_map].
-    rewrite forallb_app, IH, andb_true_r. apply user_cu, cu_hoist_setup.
-  - induction (p_top_loop (transl its)) as [|d r IH]; [reflexivity|]. cbn [flat_map].
-    rewrite forallb_app, IH, andb_true_r. apply user_cu, cu_hoist_loop.
+  intros inp n its. unfold exec_phases, run_setup. set (p := transl its).
+  pose proof (user_annT (p_G p) (p_setup p) MC true (st0 p) v0) as HU.
+  destruct (run_annT (p_G p) MC true (st0 p) (p_setup p) v0) as [[v t] brk].
+  pose proof (passes_hk_ok MC inp p n v (setup_h inp p)) as HP.
+  destruct (run_passes MC inp p n v _) as [v' tl]. unfold tr in HU. cbn [fst snd] in *.
+  split; [|exact HP]. rewrite forallb_app, HU, andb_true_r. apply user_cu, cu_hoists.
 Qed.
 
 (* the head of each pass, spelled out: polls (each followed by its handler's output), ticks, user events *)
@@ -938,25 +1155,12 @@ Proof.
     - specialize (IH hh). destruct (poll_all inp p r hh) as [h2 t2]. cbn [snd app] in *. exact IH. }
   pose proof (hk_poll_all inp p (p_polls p) h) as Hk. specialize (HPP (p_polls p) h).
   destruct (poll_all inp p (p_polls p) h) as [h1 tp]. cbn [snd] in *.
-  pose proof (user_ann (p_loop p) m (p_tab p) false v) as HU.
-  destruct (run_ann m (p_tab p) false (p_loop p) v) as [[v1 tb] brk]. unfold tr in HU. cbn [fst snd] in *.
+  pose proof (user_annT (p_G p) (p_loop p) m false (stS p) v) as HU.
+  destruct (run_annT (p_G p) m false (stS p) (p_loop p) v) as [[v1 tb] brk]. unfold tr in HU. cbn [fst snd] in *.
   exists tp, tb. rewrite tick_events_map. repeat split; try assumption.
 Qed.
 
 (* ------------------------------------------------------------------ C05: configured before use *)
-Definition cstep (c : list (res * Z)) (e : ev) : list (res * Z) :=
-  match e with ECfg r m => (r, m) :: c | _ => c end.
-Definition cfgs (t : list ev) (c : list (res * Z)) : list (res * Z) := fold_left cstep t c.
-
-Definition safe (c : list (res * Z)) (e : ev) : bool :=
-  match e with
-  | EUse r w => has_cfg c r w
-  | EHUse r w => has_cfg c r w
-  | EPoll p => has_cfg c (RPin p) false
-  | ETick l => has_cfg c (RLcd l) true
-  | _ => true
-  end.
-
 Lemma cfgs_app : forall a b c, cfgs (a ++ b) c = cfgs b (cfgs a c).
 Proof. intros. unfold cfgs. apply fold_left_app. Qed.
 
@@ -1127,12 +1331,6 @@ Proof.
   rewrite cbu_go_app, H, IH. reflexivity.
 Qed.
 
-Lemma hoists_ok : forall p c, cbu_go c (hoists p) = true.
-Proof.
-  intros p c. unfold hoists. rewrite cbu_go_app, (cbu_flat_map hoist_setup _ hoist_setup_ok),
-    (cbu_flat_map hoist_loop _ hoist_loop_ok). reflexivity.
-Qed.
-
 Lemma name_eqb_eq : forall a b, name_eqb a b = true -> a = b.
 Proof.
   induction a as [|x a IH]; intros [|y b] H; try discriminate; [reflexivity|].
@@ -1218,93 +1416,8 @@ Section CBU.
     - right. unfold nested_decl_free in H. destruct (decls_stmt (SFor cnt body)); [split; reflexivity|discriminate].
   Qed.
 
-  Lemma inplace_loop_safe : forall c d, forallb (safe c) (inplace_cfg true false d) = true.
-  Proof. intros c [k nm pins h]. destruct k; reflexivity. Qed.
-
-  (* statements of loop_body (and anything else that runs after setup()) *)
-  Lemma loop_ann_safe : forall c P, Inv c P -> forall l,
-    (forall s, In s (map snd l) -> nested_decl_free s = true /\ forall nm, In nm (devs_stmt s) -> P nm) ->
-    forall m v, forallb (safe c) (tr (run_ann m tab false l v)) = true.
-  Proof.
-    intros c P Hi l. induction l as [|[d s] r IH]; intros Hl m v; [reflexivity|].
-    cbn [run_ann].
-    assert (H1 : forallb (safe c) (tr (run_stmt m tab true false d s v)) = true).
-    { destruct (Hl s (or_introl eq_refl)) as [Hn Hd].
-      destruct (ndf_cases s Hn) as [[d0 ->]|[Hf _]].
-      - unfold tr. cbn [run_stmt fst snd]. apply inplace_loop_safe.
-      - apply (free_stmt_safe c P Hi s Hf Hd). }
-    destruct (run_stmt m tab true false d s v) as [[v1 t1] [|]]; [exact H1|].
-    assert (IH' := IH (fun s' H => Hl s' (or_intror H)) m v1).
-    destruct (run_ann m tab false r v1) as [[v2 t2] b2].
-    unfold tr in *. cbn [fst snd] in *. rewrite forallb_app, H1, IH'. reflexivity.
-  Qed.
-
-  Definition memP (known : list name) : name -> Prop := fun nm => mem_name nm known = true.
-
-  (* setup_body, statement by statement: in-place configuration precedes the first command *)
-  Lemma setup_ann_cbu : forall l c known m v,
-    Inv c (memP known) ->
-    (forall d, In d (flat_map top_decl (map snd l)) ->
-       find_decl (d_name d) tab = Some d /\ forall r mo, In (ECfg r mo) (hoist_setup d) -> In (r, mo) c) ->
-    forallb nested_decl_free (map snd l) = true ->
-    setup_order known (map snd l) = true ->
-    ann_ok false 0 l = true ->
-    cbu_go c (tr (run_ann m tab true l v)) = true /\
-    Inv (cfgs (tr (run_ann m tab true l v)) c)
-        (fun nm => mem_name nm (map d_name (flat_map top_decl (map snd l))) = true \/ mem_name nm known = true).
-  Proof.
-    induction l as [|[d0 s] r IH]; intros c known m v Hi Hdecl Hndf Hord Hok.
-    - split; [reflexivity|]. eapply Inv_weaken; [|exact Hi]. intros nm [H|H]; [discriminate|exact H].
-    - cbn [map snd forallb] in Hndf. apply andb_true_iff in Hndf as [Hn1 Hn2].
-      cbn [map snd setup_order] in Hord. apply andb_true_iff in Hord as [Ho1 Ho2].
-      cbn [ann_ok forallb snd] in Hok. apply andb_true_iff in Hok as [Hb1 Hb2]. fold (ann_ok false 0 r) in Hb2.
-      cbn [run_ann]. pose proof (bg_stmt_nobreak s false 0 m tab true true d0 v Hb1 base_setup) as Hnb.
-      assert (Hdev : forall nm, In nm (devs_stmt s) -> memP known nm).
-      { intros nm Hin. unfold names_in in Ho1. rewrite forallb_forall in Ho1. exact (Ho1 nm Hin). }
-      destruct (ndf_cases s Hn1) as [[d ->]|[Hf Htd]].
-      + (* a device declaration *)
-        cbn [run_stmt] in *. cbn [map snd flat_map top_decl] in *.
-        destruct (Hdecl d (or_introl eq_refl)) as [Hfd Hh].
-        set (t1 := inplace_cfg true true d).
-        assert (Ht1 : cbu_go c t1 = true).
-        { apply cbu_go_safe. subst t1. destruct d as [k nm pins h]. destruct k; try reflexivity;
-            try (apply forallb_forall; intros e He; apply in_map_iff in He as (p & <- & _); reflexivity).
-          - unfold inplace_cfg. cbn [d_kind d_pins app]. apply forallb_forall. intros e He.
-            apply in_wr in He as (p & -> & Hp). cbn [safe]. apply (has_cfg_in c (RPin p) 1 true); [|reflexivity].
-            apply Hh. unfold hoist_setup. cbn [d_kind d_pins]. apply in_or_app. left. apply in_pm, Hp.
-          - destruct pins as [|t [|e pr]]; reflexivity. }
-        assert (Hi1 : Inv (cfgs t1 c) (memP (d_name d :: known))).
-        { intros nm d' Hp Hf'. unfold memP in Hp. cbn [mem_name existsb] in Hp. apply orb_true_iff in Hp as [Hp|Hp].
-          - apply name_eqb_eq in Hp. subst nm. rewrite Hfd in Hf'. inversion Hf'; subst d'.
-            apply (cover_safe d _ _ (cover_setup d)). intros r0 mo Hin. apply in_app_or in Hin as [Hin|Hin].
-            + apply sub_cfgs. apply Hh. exact Hin.
-            + apply in_cfgs. exact Hin.
-          - eapply safe_all_sub; [apply sub_cfgs|]. eapply Hi; eauto. }
-        destruct (IH (cfgs t1 c) (d_name d :: known) m v Hi1) as [Hc2 Hi2]; try assumption.
-        { intros d' Hin. destruct (Hdecl d' (or_intror Hin)) as [Ha Hb]. split; [exact Ha|].
-          intros r0 mo H0. apply sub_cfgs. apply Hb. exact H0. }
-        destruct (run_ann m tab true r v) as [[v2 t2] b2]. unfold tr in *. cbn [fst snd] in *.
-        split.
-        * rewrite cbu_go_app. fold t1. rewrite Ht1, Hc2. reflexivity.
-        * rewrite cfgs_app. eapply Inv_weaken; [|exact Hi2]. unfold mem_name. intros nm [H|H].
-          -- cbn [map existsb] in H. apply orb_true_iff in H as [H|H].
-             ++ right. cbn [existsb]. rewrite H. reflexivity.
-             ++ left. exact H.
-          -- right. cbn [existsb]. rewrite H. apply orb_true_r.
-      + (* any other statement: no declaration inside *)
-        pose proof (free_stmt_safe c (memP known) Hi s Hf Hdev m true true d0 v) as Hs1.
-        cbn [map snd flat_map] in *. rewrite Htd in *. cbn [app map] in *.
-        destruct (run_stmt m tab true true d0 s v) as [[v1 t1] b]. cbn [snd] in Hnb. subst b.
-        unfold tr in Hs1. cbn [fst snd] in Hs1.
-        assert (Hi1 : Inv (cfgs t1 c) (memP known)) by (eapply Inv_sub; [apply sub_cfgs|exact Hi]).
-        destruct (IH (cfgs t1 c) known m v1 Hi1) as [Hc2 Hi2]; try assumption.
-        { intros d' Hin. destruct (Hdecl d' Hin) as [Ha Hb]. split; [exact Ha|].
-          intros r0 mo H0. apply sub_cfgs. apply Hb. exact H0. }
-        destruct (run_ann m tab true r v1) as [[v2 t2] b2]. unfold tr in *. cbn [fst snd] in *.
-        split.
-        * rewrite cbu_go_app, (cbu_go_safe _ _ Hs1), Hc2. reflexivity.
-        * rewrite cfgs_app. exact Hi2.
-  Qed.
+  Lemma Inv_uses_ok : forall c, Inv c (fun nm => forallb (safe c) (uses tab (Some nm)) = true).
+  Proof. intros c nm d Hp Hf. unfold uses in Hp. rewrite Hf in Hp. exact Hp. Qed.
 End CBU.
 
 (* ------------------------------------------------------------------ program-level facts *)
@@ -1396,21 +1509,23 @@ Proof.
 Qed.
 
 Lemma safe_poll_all : forall inp p c bs h,
-  (forall b d pin r, button_decl p b = Some d -> d_pins d = pin :: r -> has_cfg c (RPin pin) false = true) ->
-  (forall f, forallb (safe c) (handler_events (p_tab p) (find_func f (p_funcs p))) = true) ->
+  (forall b d pin r, In b bs -> button_decl p b = Some d -> d_pins d = pin :: r -> has_cfg c (RPin pin) false = true) ->
+  (forall f, forallb (safe c) (handler_events (p_tabF p) (find_func f (p_funcs p))) = true) ->
   forallb (safe c) (snd (poll_all inp p bs h)) = true.
 Proof.
   intros inp p c bs h Hb Hf. revert h. induction bs as [|b r IH]; intro h; [reflexivity|].
-  cbn [poll_all]. unfold poll_one.
+  assert (IH' : forall h, forallb (safe c) (snd (poll_all inp p r h)) = true).
+  { apply IH. intros b0 d pin r0 Hin. apply Hb. right. exact Hin. }
+  clear IH. cbn [poll_all]. unfold poll_one.
   destruct (button_decl p b) as [d|] eqn:Eb.
   - destruct (d_pins d) as [|pin pr] eqn:Ep.
-    + specialize (IH h). destruct (poll_all inp p r h) as [h2 t2]. exact IH.
-    + destruct (sample inp pin h) as [lvl h1]. specialize (IH (set_prev b lvl h1)).
+    + specialize (IH' h). destruct (poll_all inp p r h) as [h2 t2]. exact IH'.
+    + destruct (sample inp pin h) as [lvl h1]. specialize (IH' (set_prev b lvl h1)).
       destruct (poll_all inp p r (set_prev b lvl h1)) as [h2 t2]. cbn [snd app forallb safe] in *.
-      rewrite (Hb b d pin pr Eb Ep). cbn [andb]. rewrite forallb_app, IH, andb_true_r.
+      rewrite (Hb b d pin pr (or_introl eq_refl) Eb Ep). cbn [andb]. rewrite forallb_app, IH', andb_true_r.
       destruct (lvl && negb (blookup b (h_prev h1))); [|reflexivity].
       destruct (d_handler d); [apply Hf|reflexivity].
-  - specialize (IH h). destruct (poll_all inp p r h) as [h2 t2]. exact IH.
+  - specialize (IH' h). destruct (poll_all inp p r h) as [h2 t2]. exact IH'.
 Qed.
 
 Lemma passes_safe : forall inp p c n v h,
@@ -1423,99 +1538,175 @@ Proof.
   cbn [fst snd concat] in *. rewrite forallb_app, H1, IH. reflexivity.
 Qed.
 
-Lemma in_hoist_setup : forall p d e, In d (p_top_setup p) -> In e (hoist_setup d) -> In e (hoists p).
-Proof. intros p d e Hd He. unfold hoists. apply in_or_app. left. apply in_flat_map. exists d. split; assumption. Qed.
-
-Lemma in_hoist_loop : forall p d e, In d (p_top_loop p) -> In e (hoist_loop d) -> In e (hoists p).
-Proof. intros p d e Hd He. unfold hoists. apply in_or_app. right. apply in_flat_map. exists d. split; assumption. Qed.
-
 Lemma is_button_kind : forall d, is_button d = true -> d_kind d = KButton.
 Proof. intros [k nm pins h] H. destruct k; try discriminate. reflexivity. Qed.
 
 Lemma is_lcd_kind : forall d, is_lcd d = true -> d_kind d = KLcd.
 Proof. intros [k nm pins h] H. destruct k; try discriminate. reflexivity. Qed.
 
+Lemma cbu_go_sub : forall t c c', sub c c' -> cbu_go c t = true -> cbu_go c' t = true.
+Proof.
+  induction t as [|e t IH]; intros c c' Hs H; [reflexivity|].
+  destruct e; cbn [cbu_go] in *.
+  - eapply IH; eauto.
+  - eapply IH; eauto.
+  - eapply IH; [|exact H]. intros x [<-|Hx]; [left; reflexivity|right; apply Hs, Hx].
+  - apply andb_true_iff in H as [H1 H2]. rewrite (has_cfg_sub _ _ _ _ Hs H1). eapply IH; eauto.
+  - apply andb_true_iff in H as [H1 H2]. rewrite (has_cfg_sub _ _ _ _ Hs H1). eapply IH; eauto.
+  - apply andb_true_iff in H as [H1 H2]. rewrite (has_cfg_sub _ _ _ _ Hs H1). eapply IH; eauto.
+  - eapply IH; eauto.
+  - apply andb_true_iff in H as [H1 H2]. rewrite (has_cfg_sub _ _ _ _ Hs H1). eapply IH; eauto.
+Qed.
+
+Lemma cfgs_mono : forall t a b, sub a b -> sub (cfgs t a) (cfgs t b).
+Proof.
+  induction t as [|e t IH]; intros a b Hs; [exact Hs|]. cbn [cfgs fold_left]. fold (cfgs t (cstep a e)) (cfgs t (cstep b e)).
+  apply IH. destruct e; cbn [cstep]; try exact Hs. intros x [<-|Hx]; [left; reflexivity|right; apply Hs, Hx].
+Qed.
+
+Lemma top_ev_nondecl : forall m ins st d s v, decls_stmt s = [] ->
+  top_ev m ins st d s v = run_stmt m (ts_tab st) true ins d s v.
+Proof. intros m ins st d s v H. destruct s; try reflexivity. discriminate. Qed.
+
+Lemma adv_nondecl : forall G ins st s, top_decl s = [] -> adv G ins st s = st.
+Proof. intros G ins st s H. destruct s; try reflexivity. discriminate. Qed.
+
+Lemma setup_chk_nondecl : forall G st cfg d s r, top_decl s = [] ->
+  setup_chk G st cfg ((d, s) :: r) = forallb (uses_ok cfg (ts_tab st)) (devs_stmt s) && setup_chk G st cfg r.
+Proof. intros G st cfg d s r H. destruct s; try reflexivity. discriminate. Qed.
+
+Lemma setup_cfgs_nondecl : forall G st d s r, top_decl s = [] ->
+  setup_cfgs G st ((d, s) :: r) = setup_cfgs G st r.
+Proof. intros G st d s r H. destruct s; try reflexivity. discriminate. Qed.
+
+Lemma loop_chk_nondecl : forall G st cfg d s r, top_decl s = [] ->
+  loop_chk G st cfg ((d, s) :: r) = forallb (uses_ok cfg (ts_tab st)) (devs_stmt s) && loop_chk G st cfg r.
+Proof. intros G st cfg d s r H. destruct s; try reflexivity. discriminate. Qed.
+
+Lemma uses_ok_sub : forall cfg c tab nm, sub cfg c -> uses_ok cfg tab nm = true ->
+  forallb (safe c) (uses tab (Some nm)) = true.
+Proof. intros cfg c tab nm Hs H. exact (safe_all_sub _ _ _ Hs H). Qed.
+
+Lemma devs_ok : forall cfg c tab l, sub cfg c -> forallb (uses_ok cfg tab) l = true ->
+  forall nm, In nm l -> forallb (safe c) (uses tab (Some nm)) = true.
+Proof. intros cfg c tab l Hs H nm Hin. rewrite forallb_forall in H. exact (uses_ok_sub _ _ _ _ Hs (H nm Hin)). Qed.
+
+(* setup(), statement by statement: what the static check accepted is safe in every execution *)
+Lemma setup_annT_cbu : forall G l st cfg c m v,
+  sub cfg c ->
+  setup_chk G st cfg l = true ->
+  forallb nested_decl_free (map snd l) = true ->
+  ann_ok false 0 l = true ->
+  cbu_go c (tr (run_annT G m true st l v)) = true /\
+  sub (cfgs (setup_cfgs G st l) cfg) (cfgs (tr (run_annT G m true st l v)) c).
+Proof.
+  intros G l. induction l as [|[d0 s] r IH]; intros st cfg c m v Hsub Hchk Hndf Hok.
+  - split; [reflexivity|exact Hsub].
+  - cbn [map snd forallb] in Hndf. apply andb_true_iff in Hndf as [Hn1 Hn2].
+    cbn [ann_ok forallb snd] in Hok. apply andb_true_iff in Hok as [Hb1 Hb2]. fold (ann_ok false 0 r) in Hb2.
+    destruct (ndf_cases s Hn1) as [[dd ->]|[Hf Htd]].
+    + cbn [setup_chk] in Hchk. apply andb_true_iff in Hchk as [H1 H2].
+      cbn [run_annT top_ev setup_cfgs]. set (t := fst (inplaceD true dd (ts_seen st))) in *.
+      destruct (IH (adv G true st (SDecl dd)) (cfgs t cfg) (cfgs t c) m v (cfgs_mono t _ _ Hsub) H2 Hn2 Hb2) as [I1 I2].
+      destruct (run_annT G m true (adv G true st (SDecl dd)) r v) as [[v2 t2] b2]. unfold tr in *. cbn [fst snd] in *.
+      split.
+      * rewrite cbu_go_app, (cbu_go_sub t cfg c Hsub H1), I1. reflexivity.
+      * rewrite !cfgs_app. exact I2.
+    + rewrite (setup_chk_nondecl G st cfg d0 s r Htd) in Hchk. apply andb_true_iff in Hchk as [H1 H2].
+      cbn [run_annT]. rewrite (top_ev_nondecl m true st d0 s v Hf), (adv_nondecl G true st s Htd),
+        (setup_cfgs_nondecl G st d0 s r Htd).
+      pose proof (free_stmt_safe (ts_tab st) c _ (Inv_uses_ok (ts_tab st) c) s Hf
+                    (devs_ok cfg c (ts_tab st) (devs_stmt s) Hsub H1) m true true d0 v) as Hs1.
+      pose proof (bg_stmt_nobreak s false 0 m (ts_tab st) true true d0 v Hb1 base_setup) as Hnb.
+      destruct (run_stmt m (ts_tab st) true true d0 s v) as [[v1 t1] b]. cbn [snd] in Hnb. subst b.
+      unfold tr in Hs1. cbn [fst snd] in Hs1.
+      destruct (IH st cfg (cfgs t1 c) m v1 (sub_trans _ _ _ Hsub (sub_cfgs t1 c)) H2 Hn2 Hb2) as [I1 I2].
+      destruct (run_annT G m true st r v1) as [[v2 t2] b2]. unfold tr in *. cbn [fst snd] in *.
+      split.
+      * rewrite cbu_go_app, (cbu_go_safe _ _ Hs1), I1. reflexivity.
+      * rewrite cfgs_app. exact I2.
+Qed.
+
+Lemma inplaceD_loop_nil : forall d seen, hoisted_kind (d_kind d) = true -> fst (inplaceD false d seen) = [].
+Proof. intros [k nm pins h] seen H. destruct k; try discriminate; reflexivity. Qed.
+
+(* loop(): every statement only touches what is configured when setup() has finished *)
+Lemma loop_annT_safe : forall G l st cfg c m v,
+  sub cfg c ->
+  loop_chk G st cfg l = true ->
+  forallb nested_decl_free (map snd l) = true ->
+  (forall dd, In (SDecl dd) (map snd l) -> hoisted_kind (d_kind dd) = true) ->
+  forallb (safe c) (tr (run_annT G m false st l v)) = true.
+Proof.
+  intros G l. induction l as [|[d0 s] r IH]; intros st cfg c m v Hsub Hchk Hndf Hh; [reflexivity|].
+  cbn [map snd forallb] in Hndf. apply andb_true_iff in Hndf as [Hn1 Hn2].
+  assert (Hh2 : forall dd, In (SDecl dd) (map snd r) -> hoisted_kind (d_kind dd) = true)
+    by (intros dd Hin; apply Hh; right; exact Hin).
+  destruct (ndf_cases s Hn1) as [[dd ->]|[Hf Htd]].
+  - cbn [loop_chk] in Hchk. cbn [run_annT top_ev].
+    rewrite (inplaceD_loop_nil dd (ts_seen st) (Hh dd (or_introl eq_refl))).
+    specialize (IH (adv G false st (SDecl dd)) cfg c m v Hsub Hchk Hn2 Hh2).
+    destruct (run_annT G m false (adv G false st (SDecl dd)) r v) as [[v2 t2] b2]. exact IH.
+  - rewrite (loop_chk_nondecl G st cfg d0 s r Htd) in Hchk. apply andb_true_iff in Hchk as [H1 H2].
+    cbn [run_annT]. rewrite (top_ev_nondecl m false st d0 s v Hf), (adv_nondecl G false st s Htd).
+    pose proof (free_stmt_safe (ts_tab st) c _ (Inv_uses_ok (ts_tab st) c) s Hf
+                  (devs_ok cfg c (ts_tab st) (devs_stmt s) Hsub H1) m true false d0 v) as Hs1.
+    destruct (run_stmt m (ts_tab st) true false d0 s v) as [[v1 t1] [|]]; [exact Hs1|].
+    specialize (IH st cfg c m v1 Hsub H2 Hn2 Hh2).
+    destruct (run_annT G m false st r v1) as [[v2 t2] b2]. unfold tr in *. cbn [fst snd] in *.
+    rewrite forallb_app, Hs1, IH. reflexivity.
+Qed.
+
 Lemma configured_before_use_cbu : forall inp n its,
   transl_ok its = true -> well_placed its = true -> cbu (exec inp n its) = true.
 Proof.
   intros inp n its Hok Hwp. unfold well_placed in Hwp.
-  set (p := transl its) in *. set (tab := p_tab p).
+  set (p := transl its) in *. set (G := p_G p) in *.
   repeat (apply andb_true_iff in Hwp as [Hwp ?]).
-  rename H into Hfun, H0 into Hfn, H1 into Hln, H2 into Hso, H3 into Hhk, H4 into Hndf, Hwp into Hnd.
+  rename H into Hfun, H0 into Hfn, H1 into Htk, H2 into Hpl, H3 into Hlc, H4 into Hsc, H5 into Hhc,
+         H6 into Hnd, H7 into Huq, H8 into Hhk, Hwp into Hndf.
   assert (Hndf' : forall s, In s (all_stmts its) -> nested_decl_free s = true)
     by (rewrite forallb_forall in Hndf; exact Hndf).
   destruct (split_d_snd its []) as [Hs1 Hs2].
   assert (Hps : map snd (p_setup p) = fst (split its)) by exact Hs1.
-  assert (Hpl : map snd (p_loop p) = snd (split its)) by exact Hs2.
-  assert (Htab : forall d, In d (p_top_setup p) \/ In d (p_top_loop p) -> find_decl (d_name d) tab = Some d).
-  { intros d Hd. apply find_decl_unique; [exact Hnd|].
-    assert (Hsd : In (SDecl d) (all_stmts its)).
-    { apply split_incl. destruct Hd as [Hd|Hd]; [left|right]; apply top_decl_in; exact Hd. }
-    subst tab. change (p_tab p) with (flat_map decls_stmt (all_stmts its)).
-    apply in_flat_map. exists (SDecl d). split; [exact Hsd|left; reflexivity]. }
-  set (cH := cfgs (hoists p) []).
-  assert (HcH : forall e r m, In e (hoists p) -> e = ECfg r m -> In (r, m) cH).
-  { intros e r m He ->. apply in_cfgs. exact He. }
-  (* setup() *)
+  assert (Hpl' : map snd (p_loop p) = snd (split its)) by exact Hs2.
+  set (cH := cfgs (hoists p) []) in *.
   destruct (transl_ok_split its [] Hok) as [Hoks Hokl].
-  destruct (setup_ann_cbu tab (p_setup p) cH [] MC v0) as [Hcs His].
-  { intros nm d H. discriminate. }
-  { rewrite Hps. intros d Hd. split; [apply Htab; left; exact Hd|].
-    intros r mo Hin. apply (HcH _ r mo (in_hoist_setup p d _ Hd Hin) eq_refl). }
+  destruct (setup_annT_cbu G (p_setup p) (st0 p) cH cH MC v0 (sub_refl cH) Hsc) as [Hcs Hsub].
   { rewrite Hps. apply forallb_forall. intros s Hs. apply Hndf', split_incl. left. exact Hs. }
-  { rewrite Hps. exact Hso. }
   { exact Hoks. }
-  set (S := tr (run_ann MC tab true (p_setup p) v0)) in *. set (cS := cfgs S cH) in *.
-  set (known := map d_name (p_top_setup p) ++ map d_name (p_top_loop p)) in *.
-  assert (Hinv : Inv tab cS (memP known)).
-  { intros nm d Hp Hf. unfold memP, known in Hp. rewrite mem_name_app in Hp. apply orb_true_iff in Hp as [Hp|Hp].
-    - apply (His nm d); [left; rewrite Hps; exact Hp|exact Hf].
-    - unfold mem_name in Hp. apply existsb_exists in Hp as (x & Hx & Hnx). apply in_map_iff in Hx as (d' & <- & Hd').
-      apply name_eqb_eq in Hnx. subst nm. rewrite (Htab d' (or_intror Hd')) in Hf. inversion Hf; subst d'.
-      rewrite forallb_forall in Hhk. specialize (Hhk d Hd').
-      apply (cover_safe d _ cS (cover_loop d Hhk)). intros r mo Hin. unfold cS. apply sub_cfgs.
-      apply (HcH _ r mo (in_hoist_loop p d _ Hd' Hin) eq_refl). }
+  set (S := tr (run_annT G MC true (st0 p) (p_setup p) v0)) in *. set (cS := cfgs S cH) in *.
+  fold (cfg_setup p) in Hsub.
   (* passes *)
   assert (Hpass : forall v h, forallb (safe cS) (snd (fst (run_pass MC inp p v h))) = true).
   { intros v h. unfold run_pass.
     assert (Hpoll : forallb (safe cS) (snd (poll_all inp p (p_polls p) h)) = true).
     { apply safe_poll_all.
-      - intros b d pin r Hb Hpins. unfold button_decl in Hb.
-        destruct (find_decl b (filter is_button (p_top_setup p ++ p_top_loop p))) as [d1|] eqn:E; [|discriminate].
-        inversion Hb; subst d1. apply find_decl_some in E as [E _]. apply filter_In in E as [E Hk].
-        apply is_button_kind in Hk. apply (has_cfg_in cS (RPin pin) 2 false); [|reflexivity].
-        unfold cS. apply sub_cfgs. apply in_app_or in E as [E|E].
-        + apply (HcH (ECfg (RPin pin) 2) _ _ (in_hoist_setup p d _ E
-                   ltac:(unfold hoist_setup; rewrite Hk, Hpins; left; reflexivity)) eq_refl).
-        + apply (HcH (ECfg (RPin pin) 2) _ _ (in_hoist_loop p d _ E
-                   ltac:(unfold hoist_loop; rewrite Hk, Hpins; left; reflexivity)) eq_refl).
-      - intro f. apply (safe_handler_events tab cS (memP known) _ Hinv). intros s nm Hs Hnm.
-        apply find_func_in in Hs. unfold names_in in Hfn. rewrite forallb_forall in Hfn. apply Hfn.
+      - intros b d pin r Hin Hb Hpins. apply (has_cfg_sub (cfg_setup p) cS _ _ Hsub).
+        rewrite forallb_forall in Hpl. apply Hpl. unfold poll_pins. apply in_flat_map. exists b.
+        split; [exact Hin|]. rewrite Hb, Hpins. left. reflexivity.
+      - intro f. apply (safe_handler_events (p_tabF p) cS _ _ (Inv_uses_ok (p_tabF p) cS)). intros s nm Hs Hnm.
+        apply find_func_in in Hs. apply (devs_ok (cfg_setup p) cS (p_tabF p) _ Hsub Hfn).
         apply in_flat_map. exists s. split; assumption. }
     destruct (poll_all inp p (p_polls p) h) as [h1 tp]. cbn [snd] in Hpoll.
-    assert (Hu : forallb (safe cS) (tr (run_ann MC tab false (p_loop p) v)) = true).
-    { apply (loop_ann_safe tab cS (memP known) Hinv). rewrite Hpl. intros s Hs. split.
-      - apply Hndf', split_incl. right. exact Hs.
-      - intros nm Hnm. unfold names_in in Hln. rewrite forallb_forall in Hln. apply Hln.
-        apply in_flat_map. exists s. split; assumption. }
-    fold tab. destruct (run_ann MC tab false (p_loop p) v) as [[v1 tb] brk]. unfold tr in Hu. cbn [fst snd] in *.
+    assert (Hu : forallb (safe cS) (tr (run_annT G MC false (stS p) (p_loop p) v)) = true).
+    { apply (loop_annT_safe G (p_loop p) (stS p) (cfg_setup p) cS MC v Hsub Hlc).
+      - rewrite Hpl'. apply forallb_forall. intros s Hs. apply Hndf', split_incl. right. exact Hs.
+      - rewrite Hpl'. intros dd Hin. rewrite forallb_forall in Hhk. apply Hhk.
+        change (p_top_loop p) with (flat_map top_decl (snd (split its))). apply in_flat_map.
+        exists (SDecl dd). split; [exact Hin|left; reflexivity]. }
+    fold G. destruct (run_annT G MC false (stS p) (p_loop p) v) as [[v1 tb] brk]. unfold tr in Hu. cbn [fst snd] in *.
     rewrite !forallb_app, Hpoll, Hu, andb_true_r. cbn [andb].
-    apply forallb_forall. intros e He. unfold tick_events in He. apply in_flat_map in He as (l & _ & He).
-    apply repeat_spec in He as Hee. subst e. cbn [safe].
-    unfold anim_count in He. destruct (find_decl l (filter is_lcd (p_top_setup p))) as [d|] eqn:E; [|destruct He].
-    apply find_decl_some in E as [E Hn]. apply filter_In in E as [E Hk]. apply is_lcd_kind in Hk.
-    apply name_eqb_eq in Hn. subst l. apply (has_cfg_in cS (RLcd (d_name d)) 0 true); [|reflexivity].
-    unfold cS. apply sub_cfgs.
-    apply (HcH (ECfg (RLcd (d_name d)) 0) _ _ (in_hoist_setup p d _ E
-             ltac:(unfold hoist_setup; rewrite Hk; left; reflexivity)) eq_refl). }
+    rewrite tick_events_map. apply forallb_forall. intros e He. apply in_map_iff in He as (l & <- & Hl).
+    cbn [safe]. apply (has_cfg_sub (cfg_setup p) cS _ _ Hsub). rewrite forallb_forall in Htk. exact (Htk l Hl). }
   (* assembly *)
-  unfold cbu, exec, exec_phases, run_setup. fold p. fold tab.
+  unfold cbu, exec, exec_phases, run_setup. fold p. fold G.
   pose proof (passes_safe inp p cS n) as HP.
-  fold S in Hcs. unfold S, tr in *.
-  destruct (run_ann MC tab true (p_setup p) v0) as [[v t] brk]. cbn [fst snd] in *.
-  specialize (HP v (fold_left (fun h d => setup_sample inp d h) (p_top_setup p) h0) Hpass).
+  unfold S, tr in *.
+  destruct (run_annT G MC true (st0 p) (p_setup p) v0) as [[v t] brk]. cbn [fst snd] in *.
+  specialize (HP v (setup_h inp p) Hpass).
   destruct (run_passes MC inp p n v _) as [v' tl]. cbn [fst snd] in *.
-  rewrite cbu_go_app, cbu_go_app, cfgs_app, hoists_ok. fold cH. rewrite Hcs. cbn [andb].
+  rewrite cbu_go_app, cbu_go_app, cfgs_app, Hhc. fold cH. rewrite Hcs. cbn [andb].
   apply cbu_go_safe. exact HP.
 Qed.
 
@@ -1683,6 +1874,22 @@ Proof.
     + destruct (IH H) as (s' & Hs' & Ho). exists s'. split; [right; exact Hs'|exact Ho].
 Qed.
 
+Lemma cfg_origin_annT : forall G l m ins st v r mo, In (ECfg r mo) (tr (run_annT G m ins st l v)) ->
+  exists s, In s (map snd l) /\ origin s (ECfg r mo).
+Proof.
+  intros G l. induction l as [|[d s] rest IH]; intros m ins st v r mo H; [destruct H|].
+  cbn [run_annT] in H.
+  assert (Hs : In (ECfg r mo) (tr (top_ev m ins st d s v)) -> origin s (ECfg r mo)).
+  { destruct s; try apply cfg_origin_stmt. unfold tr. cbn [top_ev fst snd]. intro Hin.
+    exists d0, false, ins. split; [left; reflexivity|exact (inplaceD_incl _ _ _ _ Hin)]. }
+  destruct (top_ev m ins st d s v) as [[v1 t1] [|]].
+  - exists s. split; [left; reflexivity|apply Hs; exact H].
+  - specialize (IH m ins (adv G ins st s) v1 r mo). destruct (run_annT G m ins (adv G ins st s) rest v1) as [[v2 t2] b2].
+    unfold tr in *. cbn [fst snd] in *. apply in_app_or in H as [H|H].
+    + exists s. split; [left; reflexivity|apply Hs; exact H].
+    + destruct (IH H) as (s' & Hs' & Ho). exists s'. split; [right; exact Hs'|exact Ho].
+Qed.
+
 Lemma hk_not_cfg : forall t r mo, forallb is_hk t = true -> ~ In (ECfg r mo) t.
 Proof. intros t r mo H Hin. rewrite forallb_forall in H. specialize (H _ Hin). discriminate. Qed.
 
@@ -1701,17 +1908,17 @@ Proof.
     apply in_flat_map. exists (SDecl d0). split; [|left; reflexivity].
     apply split_incl. destruct Hd as [Hd|Hd]; [left|right]; apply top_decl_in; exact Hd. }
   destruct (split_d_snd its []) as [Hs1 Hs2].
-  unfold exec, exec_phases, run_setup in Hx. fold pr in Hx. fold tab in Hx.
-  pose proof (cfg_origin_ann (p_setup pr) MC tab true v0 (RPin p) mo) as HS.
-  destruct (run_ann MC tab true (p_setup pr) v0) as [[v t] brk]. unfold tr in HS. cbn [fst snd] in HS.
+  unfold exec, exec_phases, run_setup in Hx. fold pr in Hx.
+  pose proof (cfg_origin_annT (p_G pr) (p_setup pr) MC true (st0 pr) v0 (RPin p) mo) as HS.
+  destruct (run_annT (p_G pr) MC true (st0 pr) (p_setup pr) v0) as [[v t] brk]. unfold tr in HS. cbn [fst snd] in HS.
   assert (HP : forall n v h, In (ECfg (RPin p) mo) (concat (snd (run_passes MC inp pr n v h))) ->
                In (p, mo) (flat_map decl_pin_modes tab)).
   { clear Hx. induction n0 as [|k IHk]; intros v1 h1 H; [destruct H|].
     cbn [run_passes] in H. unfold run_pass in H.
     pose proof (hk_poll_all inp pr (p_polls pr) h1) as Hk.
     destruct (poll_all inp pr (p_polls pr) h1) as [h2 tp]. cbn [snd] in Hk.
-    pose proof (cfg_origin_ann (p_loop pr) MC tab false v1 (RPin p) mo) as HL. fold tab in H.
-    destruct (run_ann MC tab false (p_loop pr) v1) as [[v2 tb] brk2]. unfold tr in HL. cbn [fst snd] in HL.
+    pose proof (cfg_origin_annT (p_G pr) (p_loop pr) MC false (stS pr) v1 (RPin p) mo) as HL.
+    destruct (run_annT (p_G pr) MC false (stS pr) (p_loop pr) v1) as [[v2 tb] brk2]. unfold tr in HL. cbn [fst snd] in HL.
     specialize (IHk (drop (p_locals pr) v2) h2).
     destruct (run_passes MC inp pr k (drop (p_locals pr) v2) h2) as [v3 ts]. cbn [snd concat] in *.
     apply in_app_or in H as [H|H]; [|exact (IHk H)].
@@ -1719,11 +1926,11 @@ Proof.
     apply in_app_or in H as [H|H]; [exfalso; exact (hk_not_cfg _ _ _ (hk_ticks pr) H)|].
     destruct (HL H) as (s & Hs & Ho). apply (Horig s); [|exact Ho].
     apply split_incl. right. change (p_loop pr) with (snd (split_d [] its)) in Hs. rewrite Hs2 in Hs. exact Hs. }
-  specialize (HP n v (fold_left (fun h d => setup_sample inp d h) (p_top_setup pr) h0)).
+  specialize (HP n v (setup_h inp pr)).
   destruct (run_passes MC inp pr n v _) as [v' tl]. cbn [fst snd] in *.
   apply in_app_or in Hx as [Hx|Hx]; [|exact (HP Hx)].
   apply in_app_or in Hx as [Hx|Hx].
-  - unfold hoists in Hx. apply in_app_or in Hx as [Hx|Hx]; apply in_flat_map in Hx as (d0 & Hd0 & He).
+  - destruct (in_hoists pr _ Hx) as [(d0 & Hd0 & He)|(d0 & Hd0 & He)].
     + apply (Hdecl d0); [apply Htop; left; exact Hd0|exact (modes_hoist_setup _ _ _ He)].
     + apply (Hdecl d0); [apply Htop; right; exact Hd0|exact (modes_hoist_loop _ _ _ He)].
   - destruct (HS Hx) as (s & Hs & Ho). apply (Horig s); [|exact Ho].
@@ -1800,6 +2007,24 @@ Proof.
   unfold tr in *. cbn [fst snd] in *. rewrite marks_app, Hm, IH. reflexivity.
 Qed.
 
+Lemma marks_flat_annT : forall main ld, base main ld -> forall G l m ins st v,
+  forallb flat_stmt (map snd l) = true -> ann_ok main ld l = true ->
+  marks_of (tr (run_annT G m ins st l v)) = flat_map marks_stmt (map snd l).
+Proof.
+  intros main ld Hbase G. induction l as [|[d s] r IH]; intros m ins st v Hf Hok; [reflexivity|].
+  cbn [map snd forallb] in Hf. apply andb_true_iff in Hf as [Hf1 Hf2].
+  cbn [ann_ok forallb snd] in Hok. apply andb_true_iff in Hok as [Hb1 Hb2]. fold (ann_ok main ld r) in Hb2.
+  cbn [run_annT map snd flat_map].
+  assert (Hnb : snd (top_ev m ins st d s v) = false).
+  { destruct s; first [reflexivity | exact (bg_stmt_nobreak _ main ld m (ts_tab st) true ins d v Hb1 Hbase)]. }
+  assert (Hm : marks_of (tr (top_ev m ins st d s v)) = marks_stmt s).
+  { destruct s; try exact (marks_flat_stmt _ m (ts_tab st) true ins d v Hf1).
+    unfold tr. cbn [top_ev fst snd marks_stmt]. apply marks_cu, cu_inplaceD. }
+  destruct (top_ev m ins st d s v) as [[v1 t1] b]. cbn [snd] in Hnb. subst b.
+  specialize (IH m ins (adv G ins st s) v1 Hf2 Hb2). destruct (run_annT G m ins (adv G ins st s) r v1) as [[v2 t2] b2].
+  unfold tr in *. cbn [fst snd] in *. rewrite marks_app, Hm, IH. reflexivity.
+Qed.
+
 (* straight-line prologue / body: the numbered statements appear exactly once per execution, in source order *)
 Lemma source_order : forall inp n its, transl_ok its = true ->
   (forallb flat_stmt (fst (split its)) = true ->
@@ -1812,23 +2037,20 @@ Proof.
   assert (Hps : map snd (p_setup p) = fst (split its)) by exact Hs1.
   assert (Hpl : map snd (p_loop p) = snd (split its)) by exact Hs2.
   unfold exec_phases, run_setup. fold p. split; intro Hf.
-  - pose proof (marks_flat_ann false 0 base_setup (p_setup p) MC (p_tab p) true v0) as HM.
+  - pose proof (marks_flat_annT false 0 base_setup (p_G p) (p_setup p) MC true (st0 p) v0) as HM.
     rewrite Hps in HM. specialize (HM Hf Hoks).
-    destruct (run_ann MC (p_tab p) true (p_setup p) v0) as [[v t] brk].
+    destruct (run_annT (p_G p) MC true (st0 p) (p_setup p) v0) as [[v t] brk].
     destruct (run_passes MC inp p n v _) as [v' tl]. unfold tr in HM. cbn [fst snd] in *.
-    rewrite marks_app, HM, (marks_cu (hoists p)); [reflexivity|].
-    unfold hoists. apply cu_app.
-    + induction (p_top_setup p) as [|d r IH]; [reflexivity|]. cbn [flat_map]. apply cu_app; [apply cu_hoist_setup|exact IH].
-    + induction (p_top_loop p) as [|d r IH]; [reflexivity|]. cbn [flat_map]. apply cu_app; [apply cu_hoist_loop|exact IH].
-  - destruct (run_ann MC (p_tab p) true (p_setup p) v0) as [[v t] brk].
-    generalize (fold_left (fun h d => setup_sample inp d h) (p_top_setup p) h0). revert v.
+    rewrite marks_app, HM, (marks_cu (hoists p) (cu_hoists p)). reflexivity.
+  - destruct (run_annT (p_G p) MC true (st0 p) (p_setup p) v0) as [[v t] brk].
+    generalize (setup_h inp p). revert v.
     induction n as [|k IHk]; intros v h; [constructor|].
     cbn [run_passes]. unfold run_pass.
     pose proof (hk_poll_all inp p (p_polls p) h) as Hk.
     destruct (poll_all inp p (p_polls p) h) as [h1 tp]. cbn [snd] in Hk.
-    pose proof (marks_flat_ann true 1 base_main (p_loop p) MC (p_tab p) false v) as HM.
+    pose proof (marks_flat_annT true 1 base_main (p_G p) (p_loop p) MC false (stS p) v) as HM.
     rewrite Hpl in HM. specialize (HM Hf Hokl).
-    destruct (run_ann MC (p_tab p) false (p_loop p) v) as [[v1 tb] brk1]. unfold tr in HM. cbn [fst snd] in HM.
+    destruct (run_annT (p_G p) MC false (stS p) (p_loop p) v) as [[v1 tb] brk1]. unfold tr in HM. cbn [fst snd] in HM.
     specialize (IHk (drop (p_locals p) v1) h1).
     destruct (run_passes MC inp p k (drop (p_locals p) v1) h1) as [v2 ts]. cbn [fst snd] in *.
     constructor; [|exact IHk].
@@ -2016,16 +2238,18 @@ Proof.
   cbn [run_passes ann_passes]. unfold run_pass.
   pose proof (hk_poll_all inp p (p_polls p) h) as Hp.
   destruct (poll_all inp p (p_polls p) h) as [h1 tp]. cbn [snd] in Hp.
-  rewrite (mode_indep_ann (p_loop p) (p_tab p) false vc Hni).
+  destruct (run_annT_eqv (p_G p) MC false (p_tab p) (p_loop p) (stS p) vc) as (B1 & B2 & B3).
+  rewrite (mode_indep_ann (p_loop p) (p_tab p) false vc Hni) in B1, B2, B3.
   destruct (sim_ann_da (p_locals p) (p_tab p) (p_loop p) [] vc vp Hda Ha) as (A' & E1 & E2 & E3).
+  destruct (run_annT (p_G p) MC false (stS p) (p_loop p) vc) as [[vcT tbT] brkT].
   destruct (run_ann MPy (p_tab p) false (p_loop p) vc) as [[vc1 tb] brk].
   destruct (run_ann MPy (p_tab p) false (p_loop p) vp) as [[vp1 tb'] brk'].
-  unfold tr in E1. cbn [fst snd] in *. subst tb' brk'.
+  unfold tr in E1, B3. cbn [fst snd] in *. subst tb' brk' vcT brkT.
   specialize (IH (drop (p_locals p) vc1) vp1 h1 (agree_drop _ _ _ _ E3)).
   destruct (run_passes MC inp p n (drop (p_locals p) vc1) h1) as [v2 ts].
   destruct (ann_passes (p_tab p) (p_loop p) n vp1) as [v2' ts'].
   cbn [fst snd map] in *. destruct IH as [IH1 IH2]. split; [exact IH1|]. f_equal; [|exact IH2].
-  rewrite !obs_app, (obs_nobs tp (hk_nobs tp Hp)), (obs_nobs _ (hk_nobs _ (hk_ticks p))). reflexivity.
+  rewrite !obs_app, (obs_nobs tp (hk_nobs tp Hp)), (obs_nobs _ (hk_nobs _ (hk_ticks p))). exact (obs_eqv _ _ B3).
 Qed.
 
 Lemma agree_refl : forall K v, agree K v v.
@@ -2054,12 +2278,14 @@ Proof.
   assert (Hset : p_setup p = fst (split_d [] its)) by reflexivity.
   assert (Hloop : p_loop p = snd (split_d [] its)) by reflexivity.
   destruct (py_shape its tab [] n v0 Hml Hok) as (v1 & t1 & Hr & Hcase).
-  rewrite Htab, (mode_indep_ann (p_setup p) tab true v0 Hns), Hset, Hr in Hc.
-  destruct (passes_refine_da inp p Hnl Hda n v1 v1
-              (fold_left (fun h d => setup_sample inp d h) (p_top_setup p) h0) (agree_refl _ v1)) as [Hv Ht].
+  destruct (run_annT_eqv (p_G p) MC true tab (p_setup p) (st0 p) v0) as (E1 & E2 & E3).
+  rewrite (mode_indep_ann (p_setup p) tab true v0 Hns), Hset, Hr in E1, E2, E3. rewrite <- Hset in E1, E2, E3.
+  destruct (run_annT (p_G p) MC true (st0 p) (p_setup p) v0) as [[vS tS] bS].
+  unfold tr in E3. cbn [fst snd] in E1, E2, E3. subst vS bS.
+  destruct (passes_refine_da inp p Hnl Hda n v1 v1 (setup_h inp p) (agree_refl _ v1)) as [Hv Ht].
   destruct (run_passes MC inp p n v1 _) as [v' tl'] eqn:Erp. inversion Hc; subst ts tl cu. clear Hc.
   cbn [fst snd] in Hv, Ht. rewrite Htab, Hloop in Hv, Ht.
-  rewrite obs_app, (obs_nobs _ (nobs_hoists p)). cbn [app].
+  rewrite obs_app, (obs_nobs _ (nobs_hoists p)). cbn [app]. rewrite (obs_eqv _ _ E3).
   destruct Hcase as [(Hnm & Hb & Hpy)|(Hnm & d' & body & Hb & Hpy)].
   - rewrite Hpy in Hp. inversion Hp; subst ps pl pu. clear Hp. rewrite Hb in Hv, Ht.
     destruct (ann_passes_nil tab n v1) as [Hv1 Hc1]. rewrite Ht, Hc1. rewrite Hv1 in Hv. destruct Hv as [_ Hu].
@@ -2273,13 +2499,60 @@ Proof.
   - change (p_polls p) with (poll_names its). unfold poll_names. rewrite mem_sorted_set.
     apply mem_name_of_in. apply in_map. apply filter_In. split; [|exact Hb]. exact (Hintab d Hd).
   - unfold pin_of, button_decl.
-    destruct (find_decl (d_name d) (filter is_button (p_top_setup p ++ p_top_loop p))) as [d'|] eqn:E.
-    + apply find_decl_some in E as [E1 E2]. apply filter_In in E1 as [E1 _]. apply name_eqb_eq in E2.
+    destruct (find_decl (d_name d) (filter is_button (rev (p_top_setup p ++ p_top_loop p)))) as [d'|] eqn:E.
+    + apply find_decl_some in E as [E1 E2]. apply filter_In in E1 as [E1 _]. apply in_rev in E1. apply name_eqb_eq in E2.
       pose proof (find_decl_unique (p_tab p) d Hnd (Hintab d Hd)) as U1.
       pose proof (find_decl_unique (p_tab p) d' Hnd (Hintab d' E1)) as U2.
       rewrite <- E2, U1 in U2. inversion U2; subst d'. rewrite Hpins. reflexivity.
-    + exfalso. assert (Hin : In d (filter is_button (p_top_setup p ++ p_top_loop p))) by (apply filter_In; split; assumption).
-      clear -E Hin. induction (filter is_button (p_top_setup p ++ p_top_loop p)) as [|d0 l IH]; [destruct Hin|].
+    + exfalso. assert (Hin : In d (filter is_button (rev (p_top_setup p ++ p_top_loop p))))
+        by (apply filter_In; split; [apply -> in_rev; exact Hd|exact Hb]).
+      clear -E Hin. induction (filter is_button (rev (p_top_setup p ++ p_top_loop p))) as [|d0 l IH]; [destruct Hin|].
       cbn [find_decl] in E. destruct (name_eqb (d_name d) (d_name d0)) eqn:E0; [discriminate|].
       destruct Hin as [->|Hin]; [rewrite name_eqb_refl in E0; discriminate|exact (IH E Hin)].
 Qed.
+
+(* ------------------------------------------------------------------ re-bound device names *)
+Definition n_us : name := [117; 115].
+Definition n_sv : name := [115; 118].
+
+(* led = Led(5); led.on()                     inside the guard: the loop-top declaration's pinMode(6) is hoisted
+   while True: led = Led(6); led.toggle()                                                           *)
+Definition w_rebound_led : list item :=
+  [IStmt (SDecl d_mon); IStmt (SDecl (mkDecl KLed n_led [5] None)); IStmt (SMark 1 (Some n_led));
+   IMainLoop [SDecl (mkDecl KLed n_led [6] None); SMark 2 (Some n_led)]].
+
+(* sv = Servo(9); while True: sv = Servo(10); sv.write(..): one Servo object per name, attached to pin 9 *)
+Definition w_rebound_servo : list item :=
+  [IStmt (SDecl d_mon); IStmt (SDecl (mkDecl KServo n_sv [9] None));
+   IMainLoop [SDecl (mkDecl KServo n_sv [10] None); SMark 2 (Some n_sv)]].
+
+(* btn = Button(5); btn = Button(8); while True: ...      digitalRead(8) every pass, pinMode(8) never *)
+Definition w_rebound_button : list item :=
+  [IStmt (SDecl d_mon); IStmt (SDecl (mkDecl KButton n_btn [5] None)); IStmt (SDecl (mkDecl KButton n_btn [8] None));
+   IMainLoop [SMark 1 (Some n_mon)]].
+
+(* us = Ultrasonic(5, 6); mon.write(us.measure_distance()); us = Ultrasonic(8, 9); while True: ...
+   the helper is generated once per name from the last declaration: the first measurement drives pin 8
+   before pinMode(8, OUTPUT) *)
+Definition w_rebound_ultra : list item :=
+  [IStmt (SDecl d_mon); IStmt (SDecl (mkDecl KUltra n_us [5; 6] None)); IStmt (SMark 1 (Some n_us));
+   IStmt (SDecl (mkDecl KUltra n_us [8; 9] None)); IMainLoop [SMark 2 (Some n_us)]].
+
+Lemma rebound_examples :
+  (well_placed w_rebound_led = true /\ transl_ok w_rebound_led = true /\ well_placed_unique w_rebound_led = false /\
+   exec no_input 1 w_rebound_led =
+     [ECfg (RPin 6) 1; ECfg RSer 0; ECfg (RPin 5) 1; EUse (RPin 5) true; EMark 1; EUse (RPin 6) true; EMark 2]) /\
+  (well_placed w_rebound_servo = true /\
+   exec no_input 1 w_rebound_servo =
+     [ECfg (RServo 9) 0; EUse (RServo 9) true; ECfg RSer 0; EUse (RServo 9) true; EMark 2]).
+Proof. vm_compute. repeat split; reflexivity. Qed.
+
+Lemma button_rebound_refuted_ex : exists its inp n,
+  transl_ok its = true /\ one_main_last its = true /\ forallb nested_decl_free (all_stmts its) = true /\
+  well_placed its = false /\ cbu (exec inp n its) = false.
+Proof. exists w_rebound_button, no_input, 1%nat. vm_compute. repeat split; reflexivity. Qed.
+
+Lemma ultra_rebound_refuted_ex : exists its inp n,
+  transl_ok its = true /\ one_main_last its = true /\ forallb nested_decl_free (all_stmts its) = true /\
+  well_placed its = false /\ cbu (exec inp n its) = false.
+Proof. exists w_rebound_ultra, no_input, 0%nat. vm_compute. repeat split; reflexivity. Qed.
